@@ -3,6 +3,7 @@ import Gomjml.Core.LayoutCount
 import Gomjml.Core.LayoutStd
 import Gomjml.Core.CharData
 import Gomjml.Core.LayoutLeaves
+import Gomjml.Core.MixedProofs
 /-! # C04 — content fidelity: author content appears once, in order, as authored (property theorems only)
 
 Layout part, on the skeleton model (`t` = one content slot; the combined machine rejects `t` inside an Outlook
@@ -77,5 +78,42 @@ theorem C04_chardata_never_markup (s : List Gomjml.Amp.B) : ∀ b ∈ Gomjml.Cha
 /-- non-vacuity: the author's `&lt;b&gt; &amp;nbsp;` (decoded: `<b> &nbsp;`) goes out as `&lt;b&gt; &amp;nbsp;` -/
 example : Gomjml.CharData.escape [60, 98, 62, 32, 38, 110, 98, 115, 112, 59]
     = [38, 108, 116, 59, 98, 38, 103, 116, 59, 32, 38, 97, 109, 112, 59, 110, 98, 115, 112, 59] := by decide
+
+/-! ### as authored: inline content written back (`(*MJMLNode).GetMixedContent`: button, navbar link, social element,
+accordion title / text) -/
+
+open Gomjml.Mixed in
+/-- **nested inline content comes back whole**: a client's tokenizer reading what the serialiser wrote gets every text run,
+    every element and every attribute of the author's content, once, in order, text and values decoded to what the author
+    wrote — for every well-formed tree (any nesting, any text, any attribute value without an ampersand), whatever the set of
+    void elements -/
+theorem C04_inline_roundtrip (void : List Gomjml.Amp.B → Bool) (ps : List (Part Node)) (hw : wfParts false ps = true) :
+    read (serParts void ps) = some (evParts void ps) := read_content void ps hw
+
+open Gomjml.Mixed in
+/-- **the Model of `GetMixedContent` is that serialiser** wherever the Go function trims nothing: on a tree no level of which
+    begins or ends with white space (the trimming itself is parity with MJML, which trims the content of these elements) -/
+theorem C04_inline_model_is_core (void : List Gomjml.Amp.B → Bool) (f : Nat) (ps : List (Part Node))
+    (hd : depthParts ps ≤ f) (ht : tidy ps = true) : content void (f + 1) ps = serParts void ps := content_tidy void f ps hd ht
+
+open Gomjml.Mixed in
+/-- … hence, for the function as it is: what `GetMixedContent` returns reads back as the author's content -/
+theorem C04_inline_content_roundtrip (void : List Gomjml.Amp.B → Bool) (f : Nat) (ps : List (Part Node))
+    (hd : depthParts ps ≤ f) (ht : tidy ps = true) (hw : wfParts false ps = true) :
+    read (content void (f + 1) ps) = some (evParts void ps) := by
+  rw [content_tidy void f ps hd ht]; exact read_content void ps hw
+
+open Gomjml.Mixed in
+/-- PARTIAL — why attribute values with an ampersand are excluded: the serialiser escapes the double quote only, so a value
+    that contains the text `&quot;` (the author wrote `&amp;quot;`) is written as it stands and a client reads a quote
+    (recorded findings C04-F1..F8: ambiguous ampersands in attribute values) -/
+theorem C04_inline_value_counterexample : unq (escQ quot).length (escQ quot) = [34] ∧ quot ≠ [34] := by decide
+
+open Gomjml.Mixed in
+/-- non-vacuity: `Go <b class="x y">now</b>!` is tidy and well-formed, its depth is 1 -/
+example : tidy [.text [71, 111, 32], .node (.mk [98] [([99, 108, 97, 115, 115], [120, 32, 121])] [.text [110, 111, 119]]), .text [33]] = true ∧
+    wfParts false [.text [71, 111, 32], .node (.mk [98] [([99, 108, 97, 115, 115], [120, 32, 121])] [.text [110, 111, 119]]), .text [33]] = true ∧
+    depthParts [.text [71, 111, 32], .node (.mk [98] [([99, 108, 97, 115, 115], [120, 32, 121])] [.text [110, 111, 119]]), .text [33]] ≤ 1 := by
+  decide
 
 end Gomjml.Props.C04
